@@ -140,7 +140,7 @@ def constructed_models(d, ctx):
     the individual models.  The slices differ in scale on purpose: repeated or
     nearly repeated Bingham eigenvalues next to strongly concentrated slices,
     cACG / Gaussian covariances of very different magnitude, concentrations
-    from 1e-6 to 500 (Watson: to 1e4, beyond the overflow of 1F1) side by side."""
+    from 1e-6 to 500 (Watson and vMF: to 1e4, for Watson beyond the overflow of 1F1) side by side."""
     import pb_bss.distribution as dist
     from pb_bss.distribution.complex_bingham import ComplexBingham
     which = d.choice(['bingham', 'bingham', 'cacg', 'watson', 'vmf', 'ccsg', 'gaussian'])
@@ -203,6 +203,12 @@ def constructed_models(d, ctx):
     elif which == 'vmf':
         mean = gen.unit(rng.normal(size=(*lead, D)))
         conc = per_slice((), lambda i: 10.0 ** rng.uniform(-6, np.log10(500)))
+        if d.epoch >= 4 and d.aux(63).integers(0, 2) == 0:
+            # as for Watson: very concentrated slices (316..1e4) next to small ones
+            arng = d.aux(64)
+            big = 10.0 ** arng.uniform(2.5, 4, size=conc.shape)
+            conc = np.where(arng.integers(0, 2, size=conc.shape) == 0, big, conc)
+            ctx.label('vmf-wide')
         y = rng.normal(size=(*lead, N, D))
         make = lambda idx: dist.VonMisesFisher(mean=mean[idx], concentration=np.asarray(conc[idx]))  # noqa
         full = dist.VonMisesFisher(mean=mean, concentration=conc)
